@@ -100,7 +100,7 @@ BinText(bs, k, started) == IF k = 0 THEN (IF started THEN "" ELSE "0")
                            ELSE IF bs[k] = 1 THEN "1" \o BinText(bs, k - 1, TRUE)
                            ELSE (IF started THEN "0" ELSE "") \o BinText(bs, k - 1, started)
 NumText(x) == CASE x.kind = "byte" -> "0b" \o BinText(N!NatBits(x.z.mag, 8), 8, FALSE)
-                [] x.kind = "float" -> "?"                     \* the shortest round-trip decimal is not modelled: never compared
+                [] x.kind = "float" -> N!FloatText(x.f)        \* the shortest decimal that reads back as the same double (MSNum)
                 [] OTHER -> N!DecOfInt(x.z)
 IsFloatV(v) == v.t = "num" /\ v.n.kind = "float"
 
@@ -230,8 +230,7 @@ RECURSIVE Opaque(_, _, _), HasFloat(_, _, _)
 Opaque(m, v, fuel) == LET d == Deref(m, v) IN
                       Fuzzy(d) \/ d.t \in {"fn", "obj", "bfn", "mod", "map"} \/ (d.t = "list" /\ d.id \in m.unord)
                       \/ (d.t = "list" /\ (fuel = 0 \/ \E k \in 1..Len(m.lists[d.id]) : Opaque(m, m.lists[d.id][k], fuel - 1)))
-HasFloat(m, v, fuel) == LET d == Deref(m, v) IN
-                        IsFloatV(d) \/ (d.t = "list" /\ (fuel = 0 \/ \E k \in 1..Len(m.lists[d.id]) : HasFloat(m, m.lists[d.id][k], fuel - 1)))
+HasFloat(m, v, fuel) == FALSE        \* (since MSNum!FloatText every float has its text: nothing is left uncompared on this account)
 HasFn(m, v, fuel) == Opaque(m, v, fuel) \/ HasFloat(m, v, fuel)
 
 (* a binary operator on two operands (views looked through): MSLang!BinOp on the machine's own values, MSNum!Arith as soon as a  *)
@@ -246,8 +245,7 @@ VMBin(m, op, lv, rv) ==
           ELSE IF x.oom \/ x.why = "type" THEN [st |-> "oom", v |-> VNil, why |-> "bin_op " \o op \o " outside the tower model"]
           ELSE [st |-> "fail", v |-> VNil, why |-> x.why])
     ELSE IF op = "+" /\ {l.t, r.t} = {"str", "num"} THEN
-         (IF IsFloatV(l) \/ IsFloatV(r) THEN [st |-> "oom", v |-> VNil, why |-> "concatenation with a float (its text is not modelled)"]
-          ELSE [st |-> "ok", v |-> VStr(ShowV(m, l) \o ShowV(m, r)), why |-> ""])
+         [st |-> "ok", v |-> VStr(ShowV(m, l) \o ShowV(m, r)), why |-> ""]
     ELSE IF l.t = "num" \/ r.t = "num" THEN [st |-> "oom", v |-> VNil, why |-> "bin_op " \o op \o " on " \o l.t \o "," \o r.t]
     ELSE LET b == BinResult(m, op, lv, rv) IN
          IF b.st.status = "type" THEN [st |-> "oom", v |-> VNil, why |-> "bin_op " \o op \o " on " \o l.t \o "," \o r.t]
